@@ -389,6 +389,11 @@ func init() {
 		portableWidthRule(c, c.Configs()[0])
 		expFoundations(c) // the final U/W division: Invert raises to p-2 (E-EXP)
 		readFullRule(c)   // key generation reads its seed completely
+		{
+			id := c.Configs()[0]
+			run.SetConfig(id)
+			checkInputReadonly(c.Prog(id), run.Rule("INPUT-readonly", "no exported function writes through an input parameter (scalars and points are clamped/decoded on copies)", 200), false)
+		}
 		// the ladder's field primitives do not wrap a machine word (engine E-RANGE, stage A, portable back ends)
 		var rangeCfgs []string
 		for _, id := range c.Configs() {
@@ -426,7 +431,8 @@ func init() {
 			elin.CheckField(run, p, "LIN")
 			var names []string
 			for _, n := range econst.Names() {
-				if strings.HasPrefix(n, "primitives/x25519.") || strings.Contains(n, "MONTGOMERY") || strings.Contains(n, "APLUS2") {
+				// the fixed-base path multiplies the Edwards base point: its table (packed literal and the unpacking) and the base point itself
+				if strings.HasPrefix(n, "primitives/x25519.") || strings.Contains(n, "MONTGOMERY") || strings.Contains(n, "APLUS2") || strings.Contains(n, "asepointTable") || strings.Contains(n, "ED25519_BASEPOINT") {
 					if i := strings.LastIndexByte(n, '.'); i > 0 && p.Obj(n[:i], n[i+1:]) != nil {
 						names = append(names, n)
 					}
